@@ -17,8 +17,15 @@ EXTENDS Integers, Sequences, TLC, Json
 
 CONSTANT Mode
 
-F(k, en, e, a, c) == [kind |-> k, en |-> en, ecu |-> e, apid |-> a, ctid |-> c]
+\* a criterion is a literal id or (only for --eac parts) a regular expression, see Convert.tla: NOT anchored
+NoRx == [t |-> "none", w |-> <<>>, v |-> <<>>, s |-> ""]
+Lit(x) == [lit |-> x, rx |-> NoRx]
+Rx(t, w, v, s) == [lit |-> "", rx |-> [t |-> t, w |-> w, v |-> v, s |-> s]]
+G(k, en, e, a, c) == [kind |-> k, en |-> en, ecu |-> e.lit, apid |-> a.lit, ctid |-> c.lit,
+                      rx |-> [ecu |-> e.rx, apid |-> a.rx, ctid |-> c.rx]]
+F(k, en, e, a, c) == G(k, en, Lit(e), Lit(a), Lit(c))
 P(e, a, c) == F("pos", TRUE, e, a, c)
+X(e, a, c) == G("pos", TRUE, e, a, c)
 
 WinC == {"none", "b", "e", "in", "empty", "beyond"}
 \* lifecycle selections are given in every kind of order: ascending, descending, three ids in a mixed order (middle,
@@ -27,30 +34,75 @@ LcsC == {"none", "first", "last", "firstlast", "lastfirst", "perm3", "dup", "unk
 \* order in which the entries of the multi-valued options (--eac expressions, filters of the -f file) are written:
 \* as listed, reversed, or with the first entry repeated at the end - Keep is a function of the set of filters
 OrdC == {"asc", "rev", "dup"}
-\* id universe of the generated inputs: APIDs APP1 AP2 A3 B, CTIDs CTX1 CT2 C3 T (lengths 4..1, zero padded in the messages);
+\* id universe of the generated inputs: ECUs ECU, ECUB; APIDs APP1 AP2 B TC TC1 ATC XTCY; CTIDs CTX1 CT2 T TC TC1 ATC XTCY
+\* (lengths 4..1, zero padded in the messages; every short id has prefix-, suffix- and infix-extensions in the universe);
 \* the filters name short and long ids, with the ctid shorter than the apid and vice versa, through every front-end
-EacC == { <<>>,
-          <<P("ECUA", "", "")>>, <<P("", "APP1", "")>>, <<P("", "", "CT2")>>,
-          <<P("ECUB", "AP2", "")>>, <<P("ECUA", "APP1", "C3")>>,
-          <<P("ECUA", "", ""), P("", "A3", "")>>, <<P("", "B", "CTX1"), P("", "", "T")>>,
+EacBase == { <<>>,
+          <<P("ECU", "", "")>>, <<P("", "APP1", "")>>, <<P("", "", "CT2")>>,
+          <<P("ECUB", "AP2", "")>>, <<P("ECU", "APP1", "TC")>>,
+          <<P("ECU", "", ""), P("", "TC", "")>>, <<P("", "B", "CTX1"), P("", "", "T")>>,
           <<P("ECUX", "", "")>>,
-          <<P("ECUA", "APP1", ""), P("", "APP1", "")>>,                                    \* ECU-qualified entry shadowed by a general one
-          <<P("ECUB", "", "CT2"), P("", "B", "CTX1"), P("ECUA", "AP2", "")>> }            \* both ECUs share the APIDs/CTIDs
-FfC == { [fmt |-> "none", ff |-> <<>>],
-         [fmt |-> "dlf",  ff |-> <<P("", "APP1", "")>>],
-         [fmt |-> "dlf",  ff |-> <<F("neg", TRUE, "ECUB", "", "")>>],
-         [fmt |-> "dlf",  ff |-> <<P("ECUA", "", ""), F("neg", TRUE, "", "", "C3")>>],
-         [fmt |-> "dlf",  ff |-> <<F("pos", FALSE, "", "APP1", ""), F("marker", TRUE, "", "AP2", "")>>],
-         [fmt |-> "dlf",  ff |-> <<P("", "AP2", "T"), F("neg", FALSE, "ECUA", "", ""), P("ECUB", "", "")>>],
-         [fmt |-> "conv", ff |-> <<P("", "APP1", "C3")>>],
-         [fmt |-> "conv", ff |-> <<P("", "AP2", "T"), P("", "B", "CTX1")>>],
-         [fmt |-> "conv", ff |-> <<P("", "A3", "CT2"), P("", "APP1", "CTX1")>>] }
+          <<P("ECU", "APP1", ""), P("", "APP1", "")>>,                                    \* ECU-qualified entry shadowed by a general one
+          <<P("ECUB", "", "CT2"), P("", "B", "CTX1"), P("ECU", "AP2", "")>> }            \* both ECUs share the APIDs/CTIDs
+\* the --eac expression grid: each of the three parts absent | literal of 4 characters | literal of 1-3 characters | regex
+None == Lit("")
+PE == {None, Lit("ECUB"), Lit("ECU"), Rx("alt", <<"E", "C", "U", "B">>, <<"Q", "Q">>, "ECUB|QQ")}
+PA == {None, Lit("APP1"), Lit("TC"), Rx("prefix", <<"T", "C">>, <<>>, "TC.*")}
+PC == {None, Lit("CTX1"), Lit("TC"), Rx("aprefix", <<"T", "C">>, <<>>, "^TC")}
+EacGrid == {<<X(e, a, c)>> : e \in PE, a \in PA, c \in PC} \ {<<X(None, None, None)>>}
+\* the remaining regex forms on every level, followed by a short literal part where there is a later part
+EacForms == { <<X(Rx("prefix", <<"E", "C">>, <<>>, "EC.*"), Lit("TC"), None)>>,
+              <<X(Rx("aprefix", <<"E", "C", "U">>, <<>>, "^ECU"), Lit("TC"), Lit("T"))>>,
+              <<X(Rx("class", <<"E", "C", "U">>, <<"B", "X">>, "ECU[BX]"), None, Lit("TC"))>>,
+              <<X(None, Rx("alt", <<"A", "T", "C">>, <<"A", "P", "2">>, "ATC|AP2"), Lit("TC"))>>,
+              <<X(None, Rx("aprefix", <<"T", "C">>, <<>>, "^TC"), Lit("T"))>>,
+              <<X(Lit("ECU"), Rx("class", <<"T", "C">>, <<"1", "Y">>, "TC[1Y]"), Lit("TC"))>>,
+              <<X(None, None, Rx("alt", <<"X", "T", "C">>, <<"C", "T", "2">>, "XTC|CT2"))>>,
+              <<X(Lit("ECU"), None, Rx("prefix", <<"T", "C">>, <<>>, "TC.*"))>>,
+              <<X(None, Lit("TC"), Rx("class", <<"T", "C">>, <<"1">>, "TC[1]"))>> }
+EacC == EacBase \cup EacGrid \cup EacForms
+\* the subset of the expressions that takes part in the pairwise arrays (every expression set is run at least alone)
+EacCore == EacBase \cup { <<X(None, Rx("alt", <<"A", "T", "C">>, <<"A", "P", "2">>, "ATC|AP2"), Lit("TC"))>>,
+                          <<X(Rx("class", <<"E", "C", "U">>, <<"B", "X">>, "ECU[BX]"), None, Lit("TC"))>> } \cup
+           { <<X(e, a, c)>> : <<e, a, c>> \in { <<Rx("alt", <<"E", "C", "U", "B">>, <<"Q", "Q">>, "ECUB|QQ"), Lit("TC"), None>>,
+                                                <<None, Rx("prefix", <<"T", "C">>, <<>>, "TC.*"), Lit("TC")>>,
+                                                <<Lit("ECU"), Lit("TC"), Lit("TC")>> } }
+
+\* -f files.  n = total number of entries (0: just the listed ones): the listed filters sit among n - Len(ff) further
+\* entries that match no message (ids Z..., Y...), at the end of the file or so that the first listed one straddles the
+\* given byte offset (dlt-convert format: 10 bytes per entry); eol: lf | crlf | nonl (no final newline) | trail (a
+\* trailing partial record of 3 spaces) - the dlt-convert format has fixed 10-byte records and no line structure
+FE(fmt, ff, n, at, eol) == [fmt |-> fmt, ff |-> ff, n |-> n, at |-> at, eol |-> eol]
+FfBase == { FE("none", <<>>, 0, "end", "lf"),
+         FE("dlf",  <<P("", "APP1", "")>>, 0, "end", "lf"),
+         FE("dlf",  <<F("neg", TRUE, "ECUB", "", "")>>, 0, "end", "lf"),
+         FE("dlf",  <<P("ECU", "", ""), F("neg", TRUE, "", "", "TC")>>, 0, "end", "lf"),
+         FE("dlf",  <<F("pos", FALSE, "", "APP1", ""), F("marker", TRUE, "", "AP2", "")>>, 0, "end", "lf"),
+         FE("dlf",  <<P("", "AP2", "T"), F("neg", FALSE, "ECU", "", ""), P("ECUB", "", "")>>, 0, "end", "lf"),
+         FE("conv", <<P("", "APP1", "TC")>>, 0, "end", "lf"),
+         FE("conv", <<P("", "AP2", "T"), P("", "B", "CTX1")>>, 0, "end", "lf"),
+         FE("conv", <<P("", "TC", "CT2"), P("", "APP1", "CTX1")>>, 0, "end", "lf") }
+FfScale == { FE("conv", <<P("", "APP1", "TC")>>, 30, "end", "trail"),
+             FE("conv", <<P("", "APP1", "CTX1")>>, 819, "end", "lf"),
+             FE("conv", <<P("", "TC1", "T")>>, 820, "end", "lf"),
+             FE("conv", <<P("", "APP1", "TC"), P("", "B", "CTX1")>>, 820, "b8192", "lf"),
+             FE("conv", <<P("", "ATC", "CT2"), P("", "APP1", "CTX1")>>, 900, "end", "lf"),
+             FE("conv", <<P("", "APP1", "TC"), P("", "XTCY", "TC1")>>, 2000, "b16384", "lf"),
+             FE("conv", <<P("", "AP2", "T"), P("", "APP1", "CTX1")>>, 10000, "b65536", "lf"),
+             FE("conv", <<P("", "TC", "CT2")>>, 10000, "end", "lf"),
+             FE("dlf",  <<P("", "APP1", ""), F("neg", TRUE, "", "", "TC")>>, 30, "end", "crlf"),
+             FE("dlf",  <<P("ECU", "TC1", "")>>, 820, "end", "lf"),
+             FE("dlf",  <<P("", "", "CT2"), P("ECUB", "", "")>>, 2000, "end", "nonl"),
+             FE("dlf",  <<P("", "APP1", "CTX1")>>, 10000, "end", "lf") }
+FfC == FfBase \cup FfScale
+FfCore == FfBase \cup { FE("conv", <<P("", "TC1", "T")>>, 820, "end", "lf"), FE("dlf",  <<P("ECU", "TC1", "")>>, 820, "end", "lf") }
 StyleC == {"a", "x", "s", "none"}
 
 OptSpace == [winc : WinC, lcsc : LcsC, eac : EacC, f : FfC, ord : OrdC, sort : BOOLEAN, style : StyleC, ofile : BOOLEAN]
 \* the space is the full product of its dimensions; it is emitted as its dimensions (one SCN line), the orchestrator forms
 \* the product (pairwise-complete arrays, every value alone, seeded samples of the product)
-Dims == [winc |-> WinC, lcsc |-> LcsC, eac |-> EacC, f |-> FfC, ord |-> OrdC, sort |-> BOOLEAN, style |-> StyleC, ofile |-> BOOLEAN]
+Dims == [winc |-> WinC, lcsc |-> LcsC, eac |-> EacC, f |-> FfC, ord |-> OrdC, sort |-> BOOLEAN, style |-> StyleC, ofile |-> BOOLEAN,
+         eaccore |-> EacCore, fcore |-> FfCore]
 
 \* input sets: 1-3 files; per file the ECUs it contains (same pattern = same stream, read one after the other;
 \* different patterns = parallel streams merged by reception time); boots per ECU; garbage between messages; some
